@@ -1184,7 +1184,7 @@ def check(tier: str) -> int:
         elif c.get("kind") == "e2e":
             corpus_e2e.append(c)
     n_corpus = len(sruns) + len(uruns_corpus) + len(corpus_e2e)
-    n_random = 2500 if tier == "quick" else 40000
+    n_random = 1800 if tier == "quick" else 40000
     for _ in range(n_random):
         sruns.append(sock_random_case(rng, rng.choice([6, 10, 16, 24, 40, 60])))
     t0 = time.time()
@@ -1207,9 +1207,9 @@ def check(tier: str) -> int:
     smon = [(r, msg) for r in sruns for msg in r.mon]
 
     # ---------------- (a2) UnixLoop ----------------
-    ucands = uruns_corpus + [unix_random_case(rng) for _ in range(2500 if tier == "quick" else 25000)]
+    ucands = uruns_corpus + [unix_random_case(rng) for _ in range(1800 if tier == "quick" else 25000)]
     ucands += unix_exhaustive(3 if tier == "quick" else 5)
-    n_ex_u = len(ucands) - len(uruns_corpus) - (2500 if tier == "quick" else 25000)
+    n_ex_u = len(ucands) - len(uruns_corpus) - (1800 if tier == "quick" else 25000)
     ucases = [r.case() for r in ucands]
     umodel = core.run_driver(exe_u, ucases)
     uruns, ucs, uexp, umo = [], [], [], []
@@ -1229,7 +1229,7 @@ def check(tier: str) -> int:
     umon = [(r, msg) for r in uruns for msg in r.mon]
 
     # ---------------- kernel-checked samples ----------------
-    sample_n = 50 if tier == "quick" else 300
+    sample_n = 40 if tier == "quick" else 300
     idx = list(range(len(scases)))
     rng.shuffle(idx)
     idx = [i for i in idx if len(scases[i]) < 400][:sample_n]
